@@ -922,6 +922,34 @@ example (srcs : Nat → Src ℚ) (n : Nat) (st' : St ℚ) (h : roundsOk srcs nes
     (by simp [Stat, nestCs, groupsR, expoR, HC.groups, HC.expo, It.groups, It.expo, nestUp])
     n st' h).1 0 (by simp [nestCs, srcsR, HC.srcs, It.srcs, nestUp])
 
+/-- **C06.12j** (`hub_nested_reads_once_checked`): linearity of a coefficient list is DECIDABLE
+(`Linear`: the upstream table is read off the list itself, every quantifier is bounded by the groups
+written in it).  So for every filter expression the PENDING statement below follows from ONE evaluation:
+`Linear (callCoefs num den)`, which `decide` discharges for any concrete `num`, `den`. -/
+theorem hub_nested_reads_once_checked (srcs : Nat → Src K) (nsrc : Nat) (num den : PE K) (zero : K)
+    (xs : List K) (hl : Linear (callCoefs num den)) :
+    ∀ (j : Nat) (row : List Nat), (callH srcs nsrc num den zero xs).trace[j]? = some row →
+      ∀ (k v : Nat), row[k]? = some v → v = 0 ∨ v = j + 1 :=
+  hub_nested_reads_once_partial srcs nsrc num den zero xs (upOf (callCoefs num den))
+    (· ∈ groupsR (callCoefs num den)) hl.2.1.lin (fun c hc => (hl.1 c hc).1) (fun c hc => (hl.1 c hc).2)
+    ⟨fun g hg => hg, hl.2.2.1, hl.2.2.2⟩
+
+/-- non-vacuity: `g * p * q` (hubs over products of hub copies) -/
+example : Linear (callCoefs (.mul (.mul (.poly [((0 : Int), HC.s (It.src 0))]) (.poly [(0, HC.c (1 : Rat)), (1, HC.c 1)]))
+      (.poly [(0, HC.c 1), (1, HC.c 2)])) (.poly [(0, HC.c 1)])) := by decide +kernel
+/-- the Stream-gain path (`inv_gain` under a copy of a copy) -/
+example : Linear (callCoefs (.poly [((0 : Int), HC.c (1 : Rat))])
+      (.poly [(0, HC.s (It.src 0)), (1, HC.c 2), (2, HC.c 3)])) := by decide +kernel
+/-- six Streams: `(s0 + s1 z^-1) * (s2 + 2 z^-1) / s3` over `(s4 + 2 z^-1) * (1 + s5 z^-1)` — products of Stream
+polynomials, division by a Stream, Stream gain -/
+example : Linear (callCoefs
+      (.divs (.mul (.poly [((0 : Int), HC.s (It.src 0)), (1, HC.s (It.src 1))])
+                   (.poly [(0, HC.s (It.src 2)), (1, HC.c (2 : Rat))])) (HC.s (It.src 3)))
+      (.mul (.poly [(0, HC.s (It.src 4)), (1, HC.c 2)]) (.poly [(0, HC.c 1), (1, HC.s (It.src 5))]))) := by
+  decide +kernel
+/-- the hypothesis is not empty talk: the SAME Stream object stored twice (C06.12e) is not linear -/
+example : ¬ Linear ([HC.s (It.src 0), HC.s (It.src 0)] : List (HC Rat)) := by decide +kernel
+
 -- PENDING
 /-- PENDING (not proved): reads-once for NESTED hubs, on the whole call.  For every filter whose
 polynomials are built by `Poly` arithmetic (`*`, `/ Stream`) from leaf Streams, every Stream object
@@ -930,7 +958,8 @@ rewriting puts `inv_gain` under a copy of a copy — after output `j + 1` every 
 exactly `j + 1` times (0 if no coefficient of the filter contains it).  Proved: the invariant "buffer
 length = max over copies" for any nesting (C06.12a); the full statement for hubs that sit directly on
 their source (C06.12c/d); and THIS statement for any nesting whenever the coefficient list `callCoefs num
-den` is a linear forest (C06.12h/i).  What is left: that `Poly` arithmetic (`mulHub`, `divHub`, `gainHub`,
+den` is a linear forest (C06.12h/i), which is decidable (C06.12j: one `decide` per concrete filter).  What
+is left: that `Poly` arithmetic (`mulHub`, `divHub`, `gainHub`,
 `denseH`) on leaf Streams written once only builds linear forests (a statement about lists, no `next`
 in it; checked by `decide` on the depth-2 shape above); measured on the real code for nested shapes by the entry hub (where this
 very statement is also evaluated on every generated input). -/
